@@ -1,6 +1,6 @@
 (* Properties/C12.v — generated score states are consistent, stable, and what calculate() uses *)
 From Coq Require Import ZArith List Bool Floats.
-From V Require Import F64 Gradual GenState GenStateProofs.
+From V Require Import F64 Gradual GenState GenStateMania GenStateProofs GenStateManiaProofs GenStateManiaTop.
 Import ListNotations.
 Open Scope Z_scope.
 
@@ -51,5 +51,31 @@ Theorem C12_catch_state_consistent : forall i : catch_in, catch_in_ok i -> catch
 Proof. exact catch_generate_ok. Qed.
 Print Assumptions C12_catch_state_consistent.
 
-(* mania: not proved (C12_mania_partial would be the same record of facts); checked by the direct
-   oracle on the implementation.  See DESIGN.md. *)
+(* mania: for EVERY attribute shape, every subset of provided hit results, both priorities,
+   classic or not, with or without accuracy.  The four nested candidate loops are covered without
+   any assumption on their float bounds; the one hypothesis, `mania_accepts`, says that the
+   search accepted a candidate and is evaluated on every recorded trace (Proofs/GsAccept.v). *)
+Theorem C12_mania_state_consistent : forall i : mania_in,
+  mania_in_ok i -> mania_accepts i = true -> mania_gs_ok i (mania_generate i).
+Proof. exact mania_generate_ok. Qed.
+Print Assumptions C12_mania_state_consistent.
+
+Theorem C12_mania_idempotent : forall i : mania_in,
+  mania_in_ok i -> mania_accepts i = true ->
+  mania_generate (mania_feed_back i (mania_generate i)) = mania_generate i.
+Proof. exact mania_generate_idem. Qed.
+Print Assumptions C12_mania_idempotent.
+
+(* the hypothesis cannot be dropped: with a NaN accuracy nothing is accepted and the fallback
+   state overrides a provided n50 (outside the property: an accuracy is a number) *)
+Theorem C12_mania_nan_refuted :
+  let i := mk_mania_in 2 0 4294967295 None None None None (Some 0) None (Some nan) true true in
+  mania_in_ok i /\ mania_accepts i = false /\ ms_n50 (mania_generate i) = 2.
+Proof. exact mania_nan_refuted. Qed.
+Print Assumptions C12_mania_nan_refuted.
+
+(* non-vacuity: a concrete accuracy-only mania input is accepted *)
+Example C12_mania_example :
+  let i := mk_mania_in 20 3 4294967295 None None None None None (Some 2) (Some 0x1.ccccccccccccdp-1%float) true false in
+  mania_accepts i = true /\ ms_total (mania_generate i) = 23.
+Proof. vm_compute. split; reflexivity. Qed.
